@@ -723,6 +723,26 @@ pub(crate) fn header_block_fragment(frame: &Http2Frame) -> Option<&[u8]> {
     payload.get(..end)
 }
 
+/// Header block that starts with the HEADERS frame `frames[0]`: its fragment plus the fragments
+/// of the CONTINUATION frames that follow it on the same stream, up to END_HEADERS.
+pub(crate) fn header_block(frames: &[Http2Frame]) -> Option<Vec<u8>> {
+    let (first, rest) = frames.split_first()?;
+    let mut block = header_block_fragment(first)?.to_vec();
+    if first.flags & FLAG_END_HEADERS != 0 {
+        return Some(block);
+    }
+    for frame in rest.iter().filter(|f| f.stream_id == first.stream_id) {
+        if frame.frame_type != Http2FrameType::Continuation {
+            break;
+        }
+        block.extend_from_slice(&frame.payload);
+        if frame.flags & FLAG_END_HEADERS != 0 {
+            break;
+        }
+    }
+    Some(block)
+}
+
 pub fn is_http2_traffic(data: &[u8]) -> bool {
     data.starts_with(HTTP2_CONNECTION_PREFACE)
 }
